@@ -155,6 +155,27 @@ func fileSafe(s string) string {
 	return s
 }
 
+// fileOf: the query file of an obligation. Two obligations with the same name (which should not happen, but has: a
+// callee reachable under two spellings) must never share a file - the second would overwrite the first before it is solved
+var fileSeen = map[string]int{}
+var fileMu sync.Mutex
+
+func fileOf(workDir string, o *Obligation) string {
+	fileMu.Lock()
+	defer fileMu.Unlock()
+	if o.file != "" {
+		return o.file
+	}
+	base := filepath.Join(workDir, fileSafe(o.Name))
+	n := fileSeen[base]
+	fileSeen[base] = n + 1
+	if n > 0 {
+		base += fmt.Sprintf("~%d", n)
+	}
+	o.file = base + ".smt2"
+	return o.file
+}
+
 func solveOne(o *Obligation, workDir string, timeoutS int, thorough bool) *Verdict {
 	fx := o.fx
 	var modelTerms []string
@@ -164,7 +185,7 @@ func solveOne(o *Obligation, workDir string, timeoutS int, thorough bool) *Verdi
 		}
 	}
 	text := fx.c.render(o.Upto, o.Goal, "", true, modelTerms)
-	file := filepath.Join(workDir, fileSafe(o.Name)+".smt2")
+	file := fileOf(workDir, o)
 	os.WriteFile(file, []byte(text), 0o644)
 	v := &Verdict{Ob: o, SmtFile: file, Bytes: len(text)}
 	t0 := time.Now()
